@@ -84,6 +84,8 @@ def _metamorphic(ctx, ck, T, spec_a, spec_b, cls, container):
     nul = lambda *a: None  # noqa
     a, ma = programs.evaluate(T, spec_a, cls, container, nul)
     b, mb = programs.evaluate(T, spec_b, cls, container, nul)
+    if programs.pair_extreme(T, a, b):
+        raise programs.Degenerate(("*", spec_a, spec_b))
     ab, ba = a * b, b * a
     ctx.ev(3)
 
